@@ -239,7 +239,16 @@ fn observers(n: usize, len: usize, full_ranges: bool) -> Vec<Act> {
 }
 
 fn scripts_for(len: usize) -> Vec<Script> {
-    Script::all_up_to(len + 1).collect()
+    Script::all_up_to(len + 1)
+}
+/// for drains at the extension capacities (> 8): short consumption prefixes + the four long patterns
+fn drain_scripts(n: usize, l: usize) -> Vec<Script> {
+    if n <= 8 {
+        return scripts_for(l);
+    }
+    let mut v = Script::all_up_to(l.min(4));
+    v.extend([Script::all_front(l + 1), Script::all_back(l + 1), Script::alternating(l + 1, 0), Script::alternating(l + 1, 1)]);
+    v
 }
 
 
@@ -384,7 +393,12 @@ pub fn bfs_check<const N: usize>(prop: &str, o: &Opts, rep: &mut Report) {
         }
     };
     let sp = {
-        let mut cb = |_i: usize, st: &State, act: &Act, tr: &Trans| judge_one(rep, st, act, tr);
+        // the BFS phase is identical in every shard: it is judged and counted once, by shard 0
+        let mut cb = |_i: usize, st: &State, act: &Act, tr: &Trans| {
+            if o.shard.0 == 0 {
+                judge_one(rep, st, act, tr)
+            }
+        };
         explore::<N>(mode, &limits, &grow_alphabet, &mut cb)
     };
     // one-step probes from every state
@@ -400,7 +414,7 @@ pub fn bfs_check<const N: usize>(prop: &str, o: &Opts, rep: &mut Report) {
                 }
                 for a in 0..=st.len {
                     for b in a..=st.len {
-                        for s in scripts_for(b - a) {
+                        for s in drain_scripts(N, b - a) {
                             probes.push(Act::Drain(Rs::half_open(a, b), s, Fin::Drop));
                         }
                     }
@@ -435,7 +449,7 @@ pub fn bfs_check<const N: usize>(prop: &str, o: &Opts, rep: &mut Report) {
                 // every consumption script: what Drain::drop moves must not depend on how it was consumed
                 for a in 0..=st.len {
                     for b in a..=st.len {
-                        for s in scripts_for(b - a) {
+                        for s in drain_scripts(N, b - a) {
                             if s.len > 0 {
                                 probes.push(Act::Drain(Rs::half_open(a, b), s, Fin::Drop));
                             }
@@ -452,7 +466,7 @@ pub fn bfs_check<const N: usize>(prop: &str, o: &Opts, rep: &mut Report) {
     }
     finish_space(rep, &sp);
     // constructors with every source length (C03 / C11 / C17: they are operations too)
-    if matches!(prop, "C03" | "C11" | "C17" | "C01") {
+    if matches!(prop, "C03" | "C11" | "C17" | "C01") && o.shard.0 == 0 {
         ctor_checks::<N>(prop, rep);
     }
     if prop == "C01" && o.shard.0 == 0 {
